@@ -32,11 +32,14 @@ package types
 //@   requires forall i int :: 0 <= i && i < len(vals.Validators) ==> vals.Validators[i] != nil
 //@   requires forall i int :: 0 <= i && i < len(vals.Validators) ==> -4611686018427387904 < vals.Validators[i].ProposerPriority && vals.Validators[i].ProposerPriority < 4611686018427387904
 //@   ensures r == maxPrio(vals.Validators, len(vals.Validators)) - minPrio(vals.Validators, len(vals.Validators))
+//@   ensures 0 <= r
+//@   ensures (forall i int :: 0 <= i && i < len(vals.Validators) ==> -2305843009213693952 < vals.Validators[i].ProposerPriority && vals.Validators[i].ProposerPriority < 2305843009213693952) ==> r < 4611686018427387904
 //@   nooverflow
 //@   loop 1:
 //@     invariant 0 <= iter && iter <= len(vals.Validators)
 //@     invariant iter > 0 ==> max == maxPrio(vals.Validators, iter) && min == minPrio(vals.Validators, iter)
 //@     invariant iter > 0 ==> -4611686018427387904 < min && min <= max && max < 4611686018427387904
+//@     invariant (forall i int :: 0 <= i && i < len(vals.Validators) ==> -2305843009213693952 < vals.Validators[i].ProposerPriority && vals.Validators[i].ProposerPriority < 2305843009213693952) && iter > 0 ==> -2305843009213693952 < min && max < 2305843009213693952
 //@     invariant iter == 0 ==> max == -9223372036854775808 && min == 9223372036854775807
 
 // ---------------------------------------------------------------- C11: canonical sign bytes
@@ -279,3 +282,95 @@ package types
 //@     invariant forall i int :: 0 <= i && i < iter ==> (commitSigs[i].BlockIDFlag == BlockIDFlagCommit <==> (voteSet.votes[i] != nil && voteSet.votes[i].BlockID == *voteSet.maj23))
 //@     invariant forall i int :: 0 <= i && i < iter && voteSet.votes[i] == nil ==> commitSigs[i].BlockIDFlag == BlockIDFlagAbsent
 //@     invariant forall i int :: 0 <= i && i < iter && commitSigs[i].BlockIDFlag != BlockIDFlagAbsent ==> voteSet.votes[i] != nil && commitSigs[i].Signature == voteSet.votes[i].Signature && commitSigs[i].Timestamp == voteSet.votes[i].Timestamp && commitSigs[i].ValidatorAddress == voteSet.votes[i].ValidatorAddress
+
+// ---------------------------------------------------------------- C12: rotation and change sets
+
+//@ func (v *Validator) Copy() (r *Validator)
+//@   for C12
+//@   ensures v == nil ==> r == nil
+//@   ensures v != nil ==> fresh(r) && r.Address == v.Address && r.VotingPower == v.VotingPower && r.ProposerPriority == v.ProposerPriority
+
+// index of the member with this address (-1 if none), as the code's linear scan finds it
+//@ spec func pickFirst(prev int, hit bool, k int) int = ite(prev >= 0, prev, ite(hit, k, -1))
+//@ spec func indexOf(vals []*Validator, addr common.Address, n int) int = ite(n <= 0, -1, pickFirst(indexOf(vals, addr, n-1), vals[n-1].Address == addr, n-1))
+
+// once found at k (and not before), the scan result stays k for every longer prefix
+//@ lemma indexOfSticky(vals []*Validator, addr common.Address, k int, n int)
+//@   for C12
+//@   induction n
+//@   requires 0 <= k && k < n && vals[k].Address == addr && indexOf(vals, addr, k) == -1
+//@   ensures indexOf(vals, addr, n) == k
+//@   pattern indexOf(vals, addr, k); indexOf(vals, addr, n)
+
+//@ func (vs *ValidatorSet) GetByAddress(address common.Address) (index int, val *Validator)
+//@   for C12
+//@   uses indexOfSticky
+//@   requires vs != nil && (forall i int :: 0 <= i && i < len(vs.Validators) ==> vs.Validators[i] != nil)
+//@   ensures index == indexOf(vs.Validators, address, len(vs.Validators))
+//@   ensures index < 0 ==> index == -1 && val == nil
+//@   ensures index >= 0 ==> index < len(vs.Validators) && fresh(val) && val.Address == address && val.VotingPower == vs.Validators[index].VotingPower && val.ProposerPriority == vs.Validators[index].ProposerPriority
+//@   loop 1:
+//@     invariant 0 <= iter && iter <= len(vs.Validators)
+//@     invariant indexOf(vs.Validators, address, iter) == -1
+
+//@ func (vs *ValidatorSet) HasAddress(address common.Address) (r bool)
+//@   for C12
+//@   uses indexOfSticky
+//@   requires vs != nil && (forall i int :: 0 <= i && i < len(vs.Validators) ==> vs.Validators[i] != nil)
+//@   ensures r <==> indexOf(vs.Validators, address, len(vs.Validators)) >= 0
+//@   loop 1:
+//@     invariant 0 <= iter && iter <= len(vs.Validators)
+//@     invariant indexOf(vs.Validators, address, iter) == -1
+
+// Newcomers start at -(T + T>>3) = -1.125*T of the updated total; members keep their priority.
+//@ func computeNewPriorities(updates []*Validator, vs *ValidatorSet, updatedTotalVotingPower int64)
+//@   for C12
+//@   requires vs != nil && (forall i int :: 0 <= i && i < len(vs.Validators) ==> vs.Validators[i] != nil)
+//@   requires forall i int :: 0 <= i && i < len(updates) ==> updates[i] != nil
+//@   requires forall i, j int :: 0 <= i && i < len(updates) && 0 <= j && j < len(vs.Validators) ==> updates[i] != vs.Validators[j]
+//@   requires 0 <= updatedTotalVotingPower && updatedTotalVotingPower <= 1152921504606846975
+//@   nooverflow
+//@   modifies Validator.ProposerPriority
+//@   ensures [newcomer] forall i int :: 0 <= i && i < len(updates) && indexOf(vs.Validators, updates[i].Address, len(vs.Validators)) < 0 && (forall j int :: 0 <= j && j < len(updates) && j != i ==> updates[j] != updates[i]) ==> updates[i].ProposerPriority == -(updatedTotalVotingPower + updatedTotalVotingPower / 8)
+//@   ensures [member] forall i int :: 0 <= i && i < len(updates) && indexOf(vs.Validators, updates[i].Address, len(vs.Validators)) >= 0 && (forall j int :: 0 <= j && j < len(updates) && j != i ==> updates[j] != updates[i]) ==> updates[i].ProposerPriority == old(vs.Validators[indexOf(vs.Validators, updates[i].Address, len(vs.Validators))].ProposerPriority)
+//@   ensures [membersUntouched] forall j int :: 0 <= j && j < len(vs.Validators) ==> vs.Validators[j].ProposerPriority == old(vs.Validators[j].ProposerPriority)
+//@   loop 1:
+//@     invariant 0 <= iter && iter <= len(updates)
+//@     invariant forall j int :: 0 <= j && j < len(vs.Validators) ==> vs.Validators[j].ProposerPriority == old(vs.Validators[j].ProposerPriority)
+//@     invariant forall i int :: 0 <= i && i < iter && indexOf(vs.Validators, updates[i].Address, len(vs.Validators)) < 0 && (forall j int :: 0 <= j && j < len(updates) && j != i ==> updates[j] != updates[i]) ==> updates[i].ProposerPriority == -(updatedTotalVotingPower + updatedTotalVotingPower / 8)
+//@     invariant forall i int :: 0 <= i && i < iter && indexOf(vs.Validators, updates[i].Address, len(vs.Validators)) >= 0 && (forall j int :: 0 <= j && j < len(updates) && j != i ==> updates[j] != updates[i]) ==> updates[i].ProposerPriority == old(vs.Validators[indexOf(vs.Validators, updates[i].Address, len(vs.Validators))].ProposerPriority)
+
+// Shape used by the rotation functions: non-empty, members non-nil and pairwise distinct objects,
+// priorities inside (-2^61, 2^61), powers in [0, cap].
+//@ spec func wfRot(vs *ValidatorSet) bool = vs != nil && len(vs.Validators) > 0 && (forall i int :: 0 <= i && i < len(vs.Validators) ==> vs.Validators[i] != nil && -2305843009213693952 < vs.Validators[i].ProposerPriority && vs.Validators[i].ProposerPriority < 2305843009213693952 && 0 <= vs.Validators[i].VotingPower && vs.Validators[i].VotingPower <= 1152921504606846975) && (forall i, j int :: 0 <= i && i < j && j < len(vs.Validators) ==> vs.Validators[i] != vs.Validators[j])
+
+// Rescaling divides every priority by ceil(diff/diffMax) (truncating division) when the spread exceeds the window.
+//@ func (vs *ValidatorSet) RescalePriorities(diffMax int64)
+//@   for C12
+//@   requires wfRot(vs) && diffMax <= 4611686018427387904
+//@   nooverflow
+//@   modifies Validator.ProposerPriority
+//@   ensures [noopWhenInWindow] diffMax <= 0 || old(maxPrio(vs.Validators, len(vs.Validators)) - minPrio(vs.Validators, len(vs.Validators))) <= diffMax ==> forall i int :: 0 <= i && i < len(vs.Validators) ==> vs.Validators[i].ProposerPriority == old(vs.Validators[i].ProposerPriority)
+//@   ensures [divides] diffMax > 0 && old(maxPrio(vs.Validators, len(vs.Validators)) - minPrio(vs.Validators, len(vs.Validators))) > diffMax ==> forall i int :: 0 <= i && i < len(vs.Validators) ==> vs.Validators[i].ProposerPriority == old(vs.Validators[i].ProposerPriority) / ((old(maxPrio(vs.Validators, len(vs.Validators)) - minPrio(vs.Validators, len(vs.Validators))) + diffMax - 1) / diffMax)
+//@   loop 1:
+//@     invariant 0 <= iter && iter <= len(vs.Validators) && ratio >= 1 && diff == old(maxPrio(vs.Validators, len(vs.Validators)) - minPrio(vs.Validators, len(vs.Validators))) && ratio == (diff + diffMax - 1) / diffMax
+//@     invariant forall i int :: 0 <= i && i < iter ==> vs.Validators[i].ProposerPriority == old(vs.Validators[i].ProposerPriority) / ratio
+//@     invariant forall i int :: iter <= i && i < len(vs.Validators) ==> vs.Validators[i].ProposerPriority == old(vs.Validators[i].ProposerPriority)
+//@     invariant forall i int :: 0 <= i && i < len(vs.Validators) && i != iter && iter < len(vs.Validators) ==> vs.Validators[i] != vs.Validators[iter]
+
+// One rotation step: every priority advances by the validator's power; the validator with the highest
+// advanced priority (ties: lower address) is returned and pays the total power.
+//@ spec func better(a *Validator, b *Validator) *Validator = ite(a == nil, b, ite(a.ProposerPriority > b.ProposerPriority, a, ite(a.ProposerPriority < b.ProposerPriority, b, ite(bytesCmp(content(a.Address), content(b.Address)) < 0, a, b))))
+//@ spec func argmaxVal(vals []*Validator, n int) *Validator = ite(n <= 0, nil, better(argmaxVal(vals, n-1), vals[n-1]))
+
+//@ func (v *Validator) CompareProposerPriority(other *Validator) (r *Validator)
+//@   for C12
+//@   requires other != nil
+//@   ensures r == better(v, other)
+
+//@ func (vs *ValidatorSet) getValWithMostPriority() (r *Validator)
+//@   for C12
+//@   requires vs != nil && (forall i int :: 0 <= i && i < len(vs.Validators) ==> vs.Validators[i] != nil)
+//@   ensures r == argmaxVal(vs.Validators, len(vs.Validators))
+//@   loop 1:
+//@     invariant 0 <= iter && iter <= len(vs.Validators) && res == argmaxVal(vs.Validators, iter)
